@@ -21,6 +21,9 @@ CLAIMED = {
  "C11": ("abstract slot machine in TLA+ (TraceObj EvOp/EvCtor): trace validation of object histories with dirty destinations and of constructor contracts, representation observed by is_valid/full_eq/Debug after every step", "5 C11"),
  "C15": ("abstract slot machine in TLA+: every recorded conversion chain must leave the value the direct conversion gives; narrowing failure leaves the destination unchanged", "5 C15"),
  "C16": ("documented order in TLA+ (Order.tla); exhaustive TLC that it is a strict total order and equals the implementation's padded-array comparison; trace validation of ==/cmp/Hash/sort on a complete small domain and dual families", "5 C16"),
+
+ "C18": ("reader loop as a TLA+ machine model-checked against a declarative outcome (all short-read / fault / EOF behaviours, scaled buffer); trace validation of hash_stream on scripted readers and hash_file on real files, hashes judged by L1", "5 C18"),
+ "C19": ("rolling hash definition vs incremental machine and limb arithmetic by exhaustive TLC at scaled word size; trace validation of every prefix at real constants; complete 64x256 FNV table judged by TLC", "5 C19"),
 }
 LEVEL_TEXT = "model_checking: TLC explores the scaled design exhaustively (every input, history and size up to the scaled limit) and validates every recorded step of real executions against the same specification at real constants; results at real constants cover the executions explored, not all inputs"
 NOTE = "trusted: SANY/TLC 1.8.0 + CommunityModules, my transcription of the property into TLA+ (cross-checked by L1=L0, L2 refines L1), the harness recorders (serialisation only), rustc/cargo"
